@@ -165,6 +165,57 @@ for v in EXPECTED:
     if v not in kinds:
         die(f"type_as_string: no arm for KValue::{v}")
 
+# ---- is_callable / is_indexable / is_iterable ------------------------------------------------------
+VARIANT_KIND = {"Null": "null", "Bool": "bool", "Number": "number", "List": "list", "Range": "range", "Map": "map",
+                "Str": "str", "Tuple": "tuple", "Iterator": "iterator", "TemporaryTuple": "temporaryTuple"}
+
+
+def true_arm(body, fname):
+    """variants of the arm `A(_) | B(_) | ... => true,` (pattern may also be `A { .. }`)"""
+    m = re.search(r"((?:[A-Z]\w*\s*(?:\([^)]*\)|\{[^}]*\})?\s*\|?\s*)+)=>\s*true\s*,", body)
+    if not m:
+        die(f"{fname}: arm `... => true` not found")
+    vs = re.findall(r"([A-Z]\w*)\s*(?:\([^)]*\)|\{[^}]*\})?", m.group(1))
+    for v in vs:
+        if v not in VARIANT_KIND:
+            die(f"{fname}: variant {v} in the `=> true` arm is not understood")
+    return vs
+
+
+idx = fn_body(value, "is_indexable", "value.rs")
+idx_true = true_arm(idx, "is_indexable")
+if not re.search(r"Object\(o\)\s*=>\s*o\.try_borrow\(\)\.is_ok_and\(\|o\|\s*o\.size\(\)\.is_some\(\)\)", idx):
+    die("is_indexable: Object arm has an unexpected shape")
+if not re.search(r"_\s*=>\s*false", idx):
+    die("is_indexable: `_ => false` not found")
+if "Map" not in idx_true:
+    die("is_indexable: Map is expected in the `=> true` arm (maps with a metamap are indexable too)")
+
+itb = fn_body(value, "is_iterable", "value.rs")
+itb_true = true_arm(itb, "is_iterable")
+if not re.search(r"_\s*=>\s*false", itb):
+    die("is_iterable: `_ => false` not found")
+if not re.search(r"Object\(o\)\s*=>\s*o\s*\.try_borrow\(\)\s*\.is_ok_and\(\|o\|\s*!matches!\(o\.is_iterable\(\),\s*IsIterable::NotIterable\)\)", itb):
+    die("is_iterable: Object arm has an unexpected shape")
+# maps: either every map iterates (Map in the `=> true` arm), or a map with a metamap needs @iterator/@next
+map_cond = re.search(
+    r"Map\(m\)\s*=>\s*\{\s*if\s+m\.meta_map\(\)\.is_some\(\)\s*\{\s*m\.contains_meta_key\(&UnaryOp::Iterator\.into\(\)\)\s*\|\|\s*m\.contains_meta_key\(&UnaryOp::Next\.into\(\)\)\s*\}\s*else\s*\{\s*true\s*\}\s*\}", itb)
+if ("Map" in itb_true) == bool(map_cond):
+    die("is_iterable: the Map case is neither `Map(..) => true` nor the metamap-needs-@iterator/@next form")
+obj_iter_needs_keys = bool(map_cond)
+
+cal = fn_body(value, "is_callable", "value.rs")
+need = [
+    r"Function\(f\)\s+if\s+f\.flags\.is_generator\(\)\s*=>\s*false",
+    r"Function\(_\)\s*\|\s*NativeFunction\(_\)\s*=>\s*true",
+    r"Map\(m\)\s*=>\s*m\.contains_meta_key\(&MetaKey::Call\)",
+    r"Object\(o\)\s*=>\s*o\.try_borrow\(\)\.is_ok_and\(\|o\|\s*o\.is_callable\(\)\)",
+    r"_\s*=>\s*false",
+]
+for pat in need:
+    if not re.search(pat, cal):
+        die(f"is_callable: expected structure not found: {pat}")
+
 # ---- meta_type ----------------------------------------------------------------------------------
 mt = fn_body(kmap, "meta_type", "map.rs")
 # two accepted shapes: the recursive one, and the iterative one with cycle detection proposed in
@@ -236,6 +287,21 @@ out.append(f"def objectName : List Nat := {cps(object_default)}")
 out.append("")
 out.append(f"/-- `KMap::meta_type` for a non-string `@type`: \"{bad_meta}\" -/")
 out.append(f"def badMetaTypeName : List Nat := {cps(bad_meta)}")
+out.append("")
+out.append("/-- `KValue::is_indexable`: variants of the `=> true` arm (a map counts with or without a metamap) -/")
+out.append("def indexableKind : Kind → Bool")
+for c in sorted(set(VARIANT_KIND[v] for v in idx_true)):
+    out.append(f"  | .{c} => true")
+out.append("  | _ => false")
+out.append("")
+out.append("/-- `KValue::is_iterable`: variants of the `=> true` arm; a map without a metamap always iterates -/")
+out.append("def iterableKind : Kind → Bool")
+for c in sorted(set(VARIANT_KIND[v] for v in itb_true) | {"map"}):
+    out.append(f"  | .{c} => true")
+out.append("  | _ => false")
+out.append("")
+out.append("/-- `is_iterable` for a map *with* a metamap: does it need `@iterator` or `@next`? -/")
+out.append(f"def objIterableNeedsKeys : Bool := {'true' if obj_iter_needs_keys else 'false'}")
 out.append("")
 out.append("end KotoVerif.Gen.TypeNames")
 text = "\n".join(out) + "\n"
